@@ -13,15 +13,29 @@ namespace DoitModel.Run
 
 /-! ### the dependency graph as one run determined it -/
 
-/-- what the calc_deps of `t` that finished in `tr` delivered as task_dep / file_dep owners -/
+/-- the calc_deps of `t` as this run determined them: listed, or delivered by a calc_dep that is executed / up-to-date
+    (`calcRes`) or that was STARTED and then reported failed (`calcResFail`: `_process_calc_dep_results` reads
+    `task.values` whatever the `run_status`; M1 `deliverF`) — `resAt` of `Model/RunMon.lean` -/
+def calcsRun (inp : RunInput) (nTasks : Nat) (tr : List Ev) (t : Name) : List Name :=
+  calcsAtF inp tr nTasks (inp.calcDep t)
+
+/-- what the calc_deps of `t` delivered in `tr` as task_dep / file_dep owners (good and failed-after-start ones) -/
 def deliveredAt (inp : RunInput) (nTasks : Nat) (tr : List Ev) (t : Name) : List Name :=
-  ((calcsAt inp tr nTasks (inp.calcDep t)).filter (finishedIn tr)).flatMap fun c =>
-    (inp.calcRes c).tasks ++ (inp.calcRes c).files
+  (calcsRun inp nTasks tr t).flatMap fun c => (resAt inp tr c).tasks ++ (resAt inp tr c).files
 
 /-- the dependency edges of `t` in the closure graph of this run: task_dep, calc_dep (static and delivered), what
-    finished calc_deps delivered, and — only when `select_task` chose `t` for execution — its setup-tasks -/
+    calc_deps delivered — the executed / up-to-date ones and those that failed after they were started —, and — only
+    when `select_task` chose `t` for execution — its setup-tasks -/
 def edgesAt (inp : RunInput) (nTasks : Nat) (tr : List Ev) (t : Name) : List Name :=
-  inp.taskDep t ++ calcsAt inp tr nTasks (inp.calcDep t) ++ deliveredAt inp nTasks tr t ++
+  inp.taskDep t ++ calcsRun inp nTasks tr t ++ deliveredAt inp nTasks tr t ++
+    (if ranFirst inp nTasks tr t then inp.setup t else [])
+
+/-- the graph of the earlier rounds, which counted the deliveries of executed / up-to-date calc_deps only (kept for the
+    statement "a cycle that exists ONLY through a failed delivery", `Props/C09.lean`) -/
+def edgesAtGood (inp : RunInput) (nTasks : Nat) (tr : List Ev) (t : Name) : List Name :=
+  inp.taskDep t ++ calcsAt inp tr nTasks (inp.calcDep t) ++
+    (((calcsAt inp tr nTasks (inp.calcDep t)).filter (finishedIn tr)).flatMap fun c =>
+      (inp.calcRes c).tasks ++ (inp.calcRes c).files) ++
     (if ranFirst inp nTasks tr t then inp.setup t else [])
 
 /-- close `acc` under `succ`, `fuel` rounds -/
@@ -29,13 +43,25 @@ def reachIterC09 (succ : Name → List Name) : Nat → List Name → List Name
   | 0, acc => acc
   | fuel + 1, acc => reachIterC09 succ fuel (addNew acc (acc.flatMap succ))
 
+/-- `t` lies on a dependency cycle of the graph `succ` -/
+def onCycleOf (succ : Name → List Name) (nTasks : Nat) (t : Name) : Bool :=
+  t ∈ reachIterC09 succ nTasks (addNew [] (succ t))
+
 /-- `t` lies on a dependency cycle of the closure graph -/
 def onCycle (inp : RunInput) (nTasks : Nat) (tr : List Ev) (t : Name) : Bool :=
-  t ∈ reachIterC09 (edgesAt inp nTasks tr) nTasks (addNew [] (edgesAt inp nTasks tr t))
+  onCycleOf (edgesAt inp nTasks tr) nTasks t
+
+/-- the closure of the selection under `edgesAt` (work-list: every member is expanded once) -/
+def closureC09 (inp : RunInput) (nTasks : Nat) (tr : List Ev) : List Name :=
+  closureGo (edgesAt inp nTasks tr) (nTasks + inp.sel.length + 1) (addNew [] inp.sel) (addNew [] inp.sel)
 
 /-- the members of the closure of the selection that lie on a cycle -/
 def cycleTasks (inp : RunInput) (nTasks : Nat) (tr : List Ev) : List Name :=
-  (closureOf inp nTasks tr).filter (onCycle inp nTasks tr)
+  (closureC09 inp nTasks tr).filter (onCycle inp nTasks tr)
+
+/-- the same over the graph without the deliveries of failed calc_deps -/
+def cycleTasksGood (inp : RunInput) (nTasks : Nat) (tr : List Ev) : List Name :=
+  (closureOf inp nTasks tr).filter (onCycleOf (edgesAtGood inp nTasks tr) nTasks)
 
 /-! ### observables of one run and the four clauses of C09 -/
 
